@@ -103,6 +103,158 @@ def gen(ck):
     ck.oblige("gen:perform_queued_requests increments my_concurrency on both branches", "generated", h.get("pqrIncrements") == 2, h.get("pqrIncrements"))
 
 
+
+# ---------------------------------------------------------------------------------------------------
+# E-GEN (a): the structural facts of reservable_predecessor_cache, limiter_node::forward_task and
+# input_node::apply_body_bypass / try_reserve_apply_body that the reservation theorems depend on
+# (Generated/C14Res.lean; Res.genFlags / Res.genIFlags are built from them, `by decide` checks Flags.ok)
+# ---------------------------------------------------------------------------------------------------
+CACHE_IMPL = os.path.join(REPO, "include/oneapi/tbb/detail/_flow_graph_cache_impl.h")
+FLOW_GRAPH_H = os.path.join(REPO, "include/oneapi/tbb/flow_graph.h")
+
+
+def _norm(s):
+    """comments and preprocessor-conditional metainfo arguments removed, whitespace squeezed"""
+    s = _strip_comments(s)
+    s = re.sub(r"__TBB_FLOW_GRAPH_METAINFO_ARG\((?:[^()]|\([^()]*\))*\)", "", s)
+    s = re.sub(r"#if[^\n]*\n.*?#endif[^\n]*\n", lambda m: "" if "message_metainfo" in m.group(0) or "metainfo" in m.group(0) else m.group(0), s, flags=re.S)
+    return re.sub(r"\s+", " ", s)
+
+
+def _body_after(src, head_re):
+    """text of the brace-balanced block that follows the first match of head_re (None if absent)"""
+    m = re.search(head_re, src)
+    if not m:
+        return None
+    i = src.find("{", m.end() - 1)
+    if i < 0:
+        return None
+    depth, j = 0, i
+    while j < len(src):
+        if src[j] == "{":
+            depth += 1
+        elif src[j] == "}":
+            depth -= 1
+            if depth == 0:
+                return src[i + 1:j]
+        j += 1
+    return None
+
+
+def _class_text(src, head_re):
+    b = _body_after(src, head_re)
+    return b
+
+
+def extract_reservation(cache_path, fg_path):
+    res = {"known": True, "why": []}
+
+    def unknown(msg):
+        res["known"] = False
+        res["why"].append(msg)
+    cache = _norm(open(cache_path).read())
+    fg = _norm(open(fg_path).read())
+    rc = _class_text(cache, r"class reservable_predecessor_cache\b[^{;]*\{")
+    if rc is None:
+        unknown("class reservable_predecessor_cache not found")
+        rc = ""
+    # try_reserve_impl: first locked section
+    tr = _body_after(rc, r"bool try_reserve_impl\s*\([^)]*\)\s*\{") or ""
+    guard = re.search(r"if\s*\(([^{};]*)\)\s*\{?\s*return false\s*;", tr)
+    gtxt = guard.group(1) if guard else ""
+    res["reserveChecksSrc"] = bool(re.search(r"reserved_src(\.load\([^)]*\))?", gtxt)) and "!" not in gtxt.split("reserved_src")[0][-2:]
+    if not re.search(r"internal_empty\(\)", gtxt):
+        unknown("try_reserve_impl: the emptiness test of the first locked section was not recognised: %r" % gtxt)
+    if not re.search(r"reserved_src\.store\(\s*pred\b", tr) and not re.search(r"reserved_src\s*=\s*pred\b", tr):
+        unknown("try_reserve_impl no longer stores the popped predecessor into reserved_src")
+    if not re.search(r"register_successor\(\s*\*pred\s*,\s*\*this->my_owner\s*\)\s*;\s*reserved_src\.store\(\s*nullptr", tr):
+        unknown("try_reserve_impl: failed-reserve clean-up (register_successor; reserved_src = nullptr) not recognised")
+    if not re.search(r"this->add\(\s*\*pred\s*\)", tr):
+        unknown("try_reserve_impl no longer re-adds the predecessor after a successful reserve")
+    for name, call in (("release", "try_release"), ("consume", "try_consume")):
+        b = _body_after(rc, r"bool %s\s*\(\s*\)\s*\{" % call)
+        if b is None:
+            unknown("reservable_predecessor_cache::%s not found" % call)
+            b = ""
+        plain = re.fullmatch(r"\s*reserved_src\.load\([^)]*\)->%s\(\s*\)\s*;\s*reserved_src\.store\(\s*nullptr[^)]*\)\s*;\s*return true\s*;\s*" % call, b)
+        tol = re.fullmatch(r"\s*(?:[\w:<>\*\s]+?)\s+(\w+)\s*=\s*reserved_src\.load\([^)]*\)\s*;\s*if\s*\(\s*!\s*\1\s*\)\s*\{?\s*return false\s*;\s*\}?\s*\1->%s\(\s*\)\s*;\s*"
+                           r"reserved_src\.store\(\s*nullptr[^)]*\)\s*;\s*return true\s*;\s*" % call, b)
+        res[name + "NullTolerant"] = bool(tol)
+        if not plain and not tol:
+            unknown("reservable_predecessor_cache::%s has an unrecognised body: %r" % (call, b[:200]))
+    # limiter_node::forward_task
+    lim = _class_text(fg, r"class limiter_node\s*:[^{;]*\{")
+    ft = _body_after(lim or "", r"graph_task\s*\*\s*forward_task\s*\(\s*\)\s*\{")
+    if ft is None:
+        unknown("limiter_node::forward_task not found")
+        ft = ""
+    mres = re.search(r"if\s*\(\s*\(?\s*my_predecessors\.try_reserve\(\s*\w+\s*\)\s*\)?\s*(?:==\s*true)?\s*\)\s*\{", ft)
+    if not mres:
+        unknown("forward_task: `if (my_predecessors.try_reserve(v))` not recognised")
+        ok_block, rest = "", ft
+    else:
+        ok_block = _body_after(ft[mres.start():], r"if") or ""
+        rest = ft[mres.start() + len(ok_block):]
+    mflag = re.search(r"bool\s+(\w+)\s*=\s*false\s*;", ft[:mres.start()] if mres else ft)
+    flag = mflag.group(1) if mflag else None
+    res["limSetsReserved"] = bool(flag and re.match(r"\s*%s\s*=\s*true\s*;" % re.escape(flag), ok_block))
+    mput = re.search(r"if\s*\(\s*\(?\s*(\w+)\s*=\s*my_successors\.try_put_task\(\s*\w+\s*\)\s*\)?\s*(?:!=\s*nullptr)?\s*\)\s*\{", ok_block)
+    succ = (_body_after(ok_block[mput.start():], r"if") or "") if mput else ""
+    if not mput:
+        unknown("forward_task: `if ((rval = my_successors.try_put_task(v)) != nullptr)` not recognised")
+    res["limSuccessConsumes"] = bool(re.search(r"(?<![\w(])my_predecessors\.try_consume\(\s*\)\s*;", succ)) and "try_release" not in succ
+    if "try_release" in ok_block or len(re.findall(r"try_consume", ft)) > 1:
+        unknown("forward_task: unexpected release/consume calls in the success block")
+    # failure section = the last brace block of the function
+    fail = rest
+    g = re.search(r"(if\s*\(\s*(\w+)\s*\)\s*\{?\s*)?my_predecessors\.try_release\(\s*\)\s*;", fail)
+    res["limFailReleases"] = bool(g)
+    res["limFailGuarded"] = bool(g and g.group(1) and flag and g.group(2) == flag)
+    if g and g.group(1) and not res["limFailGuarded"]:
+        unknown("forward_task: the failure path's try_release is guarded by something that is not the local reserved flag")
+    if "try_consume" in fail:
+        unknown("forward_task: try_consume on the failure path")
+    # input_node
+    inp = _class_text(fg, r"class input_node\s*:[^{;]*\{")
+    ra = _body_after(inp or "", r"bool try_reserve_apply_body\s*\([^)]*\)\s*\{")
+    if ra is None:
+        unknown("input_node::try_reserve_apply_body not found")
+        ra = ""
+    res["inReserveChecksReserved"] = bool(re.search(r"scoped_lock \w+\(\s*my_mutex\s*\)\s*;\s*if\s*\(\s*my_reserved\s*\)\s*\{?\s*return false\s*;", ra))
+    res["inBodyOnlyWhenEmpty"] = bool(re.search(r"if\s*\(\s*!\s*my_has_cached_item\s*\)\s*\{[^{}]*\(\s*\*my_body\s*\)\s*\(", ra)) and len(re.findall(r"\(\s*\*my_body\s*\)\s*\(", ra)) == 1
+    if not re.search(r"if\s*\(\s*my_has_cached_item\s*\)\s*\{\s*\w+\s*=\s*my_cached_item\s*;\s*my_reserved\s*=\s*true\s*;\s*return true\s*;", ra):
+        unknown("try_reserve_apply_body: `if (my_has_cached_item) { v = my_cached_item; my_reserved = true; return true; }` not recognised")
+    ab = _body_after(inp or "", r"graph_task\s*\*\s*apply_body_bypass\s*\(\s*\)\s*\{")
+    if ab is None:
+        unknown("input_node::apply_body_bypass not found")
+        ab = ""
+    res["inApplyReturnsOnFail"] = bool(re.search(r"if\s*\(\s*!\s*try_reserve_apply_body\(\s*\w+\s*\)\s*\)\s*\{?\s*return nullptr\s*;", ab))
+    mc = re.search(r"graph_task\s*\*\s*(\w+)\s*=\s*my_successors\.try_put_task\(\s*\w+\s*\)\s*;\s*if\s*\(\s*(\w+)\s*\)\s*\{?\s*(try_\w+)\(\s*\)\s*;\s*\}?\s*else\s*\{?\s*(try_\w+)\(\s*\)\s*;", ab)
+    res["inApplyConsumesOnAccept"] = bool(mc and mc.group(1) == mc.group(2) and mc.group(3) == "try_consume")
+    res["inApplyReleasesOnReject"] = bool(mc and mc.group(1) == mc.group(2) and mc.group(4) == "try_release")
+    if not mc:
+        unknown("apply_body_bypass: `if (last_task) try_consume(); else try_release();` not recognised")
+    return res
+
+
+RES_FLAGS = ["reserveChecksSrc", "limSetsReserved", "limFailReleases", "limFailGuarded", "limSuccessConsumes", "releaseNullTolerant", "consumeNullTolerant",
+             "inReserveChecksReserved", "inBodyOnlyWhenEmpty", "inApplyReturnsOnFail", "inApplyConsumesOnAccept", "inApplyReleasesOnReject"]
+
+
+def gen_res(ck):
+    try:
+        r = extract_reservation(CACHE_IMPL, FLOW_GRAPH_H)
+    except OSError as e:
+        r = {"known": False, "why": [str(e)]}
+    ck.extra["generated_reservation"] = r
+    ck.oblige("gen:reservation skeleton of reservable_predecessor_cache / limiter_node::forward_task / input_node::apply_body_bypass recognised",
+              "generated", r.get("known", False), "; ".join(r.get("why", [])) or str({k: r.get(k) for k in RES_FLAGS}))
+    body = "def skeletonKnown : Bool := %s\n" % ("true" if r.get("known") else "false")
+    for k in RES_FLAGS:
+        body += "def %s : Bool := %s\n" % (k, "true" if r.get(k) else "false")
+    gen_write("C14Res", body)
+
+
 # ---------------------------------------------------------------------------------------------------
 # builds
 # ---------------------------------------------------------------------------------------------------
@@ -123,9 +275,10 @@ def tbb_lib_dir():
     raise BuildError("no built libtbb found (neither %s/_build nor /repo/_build)" % REPO)
 
 
-def build_real():
+def build_real(preview=False):
     d = tbb_lib_dir()
-    return cxx_build("C14", "real", ["harness/c14/real.cpp"], flags=["-O1", "-g", "-fno-access-control", "-pthread"],
+    return cxx_build("C14", "real_tpw" if preview else "real", ["harness/c14/real.cpp"],
+                     flags=["-O1", "-g", "-fno-access-control", "-pthread"] + (["-DTBB_PREVIEW_FLOW_GRAPH_TRY_PUT_AND_WAIT=1"] if preview else []),
                      libs=["-L" + d, "-ltbb", "-Wl,-rpath," + d, "-pthread"])
 
 
@@ -134,8 +287,8 @@ def build_real():
 # always knows which tasks are pending; the finished script then goes to the Lean model in one batch)
 # ---------------------------------------------------------------------------------------------------
 class Inter:
-    def __init__(self, exe):
-        self.p = subprocess.Popen([exe], stdin=subprocess.PIPE, stdout=subprocess.PIPE, text=True, bufsize=1)
+    def __init__(self, exe, args=()):
+        self.p = subprocess.Popen([exe] + list(args), stdin=subprocess.PIPE, stdout=subprocess.PIPE, text=True, bufsize=1)
         self.lines, self.outs = [], []
 
     def send(self, line):
@@ -201,8 +354,11 @@ def gen_topology(rng):
             maxc, pol = rng.choice([(1, "r"), (1, "r"), (2, "r"), (1, "q"), (0, "r")])
         else:
             maxc, pol = rng.choice([0, 1, 1, 1, 2, 2, 3]), rng.choice(["q", "r", "r"])
-        if rng.random() < 0.2:
+        rk = rng.random()
+        if rk < 0.17:
             nodes.append({"kind": "mfunc", "maxc": maxc, "pol": pol})
+        elif rk < 0.30:
+            nodes.append({"kind": "async", "maxc": maxc, "pol": pol, "resv": rng.choice([0, 1, 1])})
         else:
             nodes.append({"kind": "func", "maxc": maxc, "pol": pol, "lw": 1 if rng.random() < 0.3 else 0})
     n_s = rng.choice([0, 1, 1, 2])
@@ -221,13 +377,15 @@ def gen_topology(rng):
             lines.append("node %d func %d %s %d" % (i, nd["maxc"], nd["pol"], nd["lw"]))
         elif k == "mfunc":
             lines.append("node %d mfunc %d %s" % (i, nd["maxc"], nd["pol"]))
+        elif k == "async":
+            lines.append("node %d async %d %s %d" % (i, nd["maxc"], nd["pol"], nd["resv"]))
         elif k == "proxy":
             lines.append("node %d proxy %d" % (i, nd["tgt"]))
         else:
             lines.append("node %d sink %d %d" % (i, nd["rejmod"], nd["regok"]))
     edges = set()
-    isend = [i for i, nd in enumerate(nodes) if nd["kind"] in ("input", "cont", "func", "mfunc")]
-    irecv = [i for i, nd in enumerate(nodes) if nd["kind"] in ("func", "mfunc", "sink", "proxy")]
+    isend = [i for i, nd in enumerate(nodes) if nd["kind"] in ("input", "cont", "func", "mfunc", "async")]
+    irecv = [i for i, nd in enumerate(nodes) if nd["kind"] in ("func", "mfunc", "async", "sink", "proxy")]
     for r in irecv:
         cands = [p for p in isend if p < r]
         if not cands:
@@ -262,7 +420,8 @@ def gen_topology(rng):
     return lines, {"nodes": nodes, "edges": edges, "shape": shape}
 
 
-def gen_script(rng, exe, nops):
+def gen_script(rng, exe, nops, fault=False):
+    """fault: a fault schedule — bodies throw / the graph is cancelled at random points of a multi-node graph, wait_for_all + reset follow"""
     setup, meta = gen_topology(rng)
     it = Inter(exe)
     try:
@@ -270,7 +429,8 @@ def gen_script(rng, exe, nops):
             it.send(l)
         st = parse_out(it.send("go"))
         nodes = meta["nodes"]
-        funcs = [i for i, nd in enumerate(nodes) if nd["kind"] in ("func", "mfunc")]
+        funcs = [i for i, nd in enumerate(nodes) if nd["kind"] in ("func", "mfunc", "async")]
+        asyncs = [i for i, nd in enumerate(nodes) if nd["kind"] == "async"]
         inputs = [i for i, nd in enumerate(nodes) if nd["kind"] == "input"]
         sinks = [i for i, nd in enumerate(nodes) if nd["kind"] == "sink"]
         cputs = [i for i, nd in enumerate(nodes) if nd["kind"] in ("bc", "cont")]
@@ -279,7 +439,8 @@ def gen_script(rng, exe, nops):
         activated = set()
         next_id = [1]
         resv = [0]
-        risky = rng.random() < 0.3      # scripts with cancel / throw / reset
+        risky = fault or rng.random() < 0.3      # scripts with cancel / throw / reset
+        after_fault = [False]
 
         def one():
             r = rng.random()
@@ -289,6 +450,25 @@ def gen_script(rng, exe, nops):
                 cands = [t for t in pool if t.startswith("b%d." % nodes[px]["tgt"])]
                 if cands:
                     return "hook %d %s" % (px, rng.choice(cands))
+            if fault:
+                if after_fault[0] and not pool and rng.random() < 0.5:
+                    after_fault[0] = False
+                    return rng.choice(["wfa", "wfa", "reset"])
+                throwable = [t for t in pool if t[0] in "bc"]
+                if throwable and rng.random() < 0.10:
+                    after_fault[0] = True
+                    return "throw " + rng.choice(throwable)
+                if rng.random() < 0.03:
+                    after_fault[0] = True
+                    return "cancel"
+            if asyncs and rng.random() < 0.12:
+                a = rng.choice(asyncs)
+                g = int(st["nodes"][a].rsplit(" g", 1)[1]) if st else 0
+                if g and rng.random() < 0.5:
+                    return "grel %d" % a
+                if g or rng.random() < 0.15:          # normally between reserve_wait and release_wait; sometimes a stray late put
+                    next_id[0] += 1
+                    return "gput %d %d" % (a, next_id[0] - 1)
             if pool and r < 0.45:
                 return "run " + rng.choice(pool)
             if pool and r < 0.52:
@@ -338,6 +518,19 @@ def gen_script(rng, exe, nops):
             if not st or not st["pool"]:
                 break
             st = parse_out(it.send("run " + rng.choice(st["pool"]))) or st
+        for a in asyncs:      # the foreign threads finish: one late put each, then release_wait
+            for _ in range(50):
+                g = int(st["nodes"][a].rsplit(" g", 1)[1]) if st else 0
+                if not g:
+                    break
+                if rng.random() < 0.3:
+                    next_id[0] += 1
+                    st = parse_out(it.send("gput %d %d" % (a, next_id[0] - 1))) or st
+                st = parse_out(it.send("grel %d" % a)) or st
+        for _ in range(300):
+            if not st or not st["pool"]:
+                break
+            st = parse_out(it.send("run " + rng.choice(st["pool"]))) or st
         for _ in range(resv[0] + 1):
             o = it.send("release")
             if o == "bad-op":
@@ -364,7 +557,8 @@ def path_counts(meta):
     for (a, b) in meta["edges"]:
         if meta["nodes"][b]["kind"] == "proxy":
             b = meta["nodes"][b]["tgt"]
-        succ[a].append(b)
+        if meta["nodes"][a]["kind"] != "async":      # an async node's own task puts nothing to its port; the gateway does
+            succ[a].append(b)
     memo = {}
 
     def paths(a, b):
@@ -382,7 +576,12 @@ def mock_monitors(meta, lines, outs):
     bad = []
     nodes = meta["nodes"]
     paths = path_counts(meta)
-    maxc = {i: nd["maxc"] for i, nd in enumerate(nodes) if nd["kind"] in ("func", "mfunc")}
+    maxc = {i: nd["maxc"] for i, nd in enumerate(nodes) if nd["kind"] in ("func", "mfunc", "async")}
+    gsucc = {}
+    for (ea, eb) in meta["edges"]:
+        if nodes[ea]["kind"] == "async":
+            gsucc.setdefault(ea, []).append(nodes[eb]["tgt"] if nodes[eb]["kind"] == "proxy" else eb)
+    gorigin = {}       # message id put through a gateway -> async node
     origin = {}        # message id -> origin node (accepted external put) ; generated ids / continue outputs by range
     bcount = {}        # (node, msg) -> number of body invocations
     ocount = {}        # (sink, msg) -> number of offers
@@ -409,6 +608,11 @@ def mock_monitors(meta, lines, outs):
             resv -= 1
         if w[0] == "put" and st["res"] == "1":
             origin[int(w[2])] = int(w[1])
+        if w[0] == "gput" and st["res"] == "1":
+            gorigin[int(w[2])] = int(w[1])
+        if w[0] == "grel":
+            resv -= 1
+        resv += sum(1 for e in st["ev"] if e.startswith("W"))
         # (e) no body starts from a task that the dispatcher takes after cancellation
         # (tasks of equal name are interchangeable: same accounting as the harness' dispatcher)
         if w[0] == "begin" and begun.count(w[1]) < prev_pool.count(w[1]) and not cancelled_before:
@@ -421,11 +625,11 @@ def mock_monitors(meta, lines, outs):
             was_begun = w[1] in begun
             if was_begun:
                 begun.remove(w[1])
-            if cancelled_before and not was_begun and any(e[0] in "BCG" for e in st["ev"]):
+            if cancelled_before and not was_begun and any(e[0] in "ABCG" for e in st["ev"]):
                 bad.append(("body-after-cancel", "line %d `%s` after cancellation started bodies: %s" % (li, l, " ".join(st["ev"]))))
         prev_pool = st["pool"]
         for e in st["ev"]:
-            if e[0] == "B":
+            if e[0] in "AB":
                 n, m = e[1:].rstrip("!").split(":")
                 bcount[(int(n), int(m))] = bcount.get((int(n), int(m)), 0) + 1
             elif e[0] == "O":
@@ -469,6 +673,9 @@ def mock_monitors(meta, lines, outs):
                     bad.append(("stranded-message", "graph idle (no pending task) but item %d of input_node %d was never delivered to any of its successors %s: %s" % (v, i, ss, last["nodes"][i])))
                     break
 
+    def gpaths(a, n):
+        return sum(paths(x, n) for x in gsucc.get(a, []))
+
     def origin_of(m):
         if m in origin:
             return origin[m]
@@ -482,6 +689,8 @@ def mock_monitors(meta, lines, outs):
     for (n, m), c in sorted(bcount.items()):
         og = origin_of(m)
         mx = paths(og, n) if og is not None else 0
+        if m in gorigin:
+            mx = gpaths(gorigin[m], n)
         if c > mx:
             bad.append(("duplicate-or-phantom", "node %d ran its body %d times for message %d (at most %d path(s) from its origin %s)" % (n, c, m, mx, og)))
     for (n, m), c in sorted(ocount.items()):
@@ -491,20 +700,25 @@ def mock_monitors(meta, lines, outs):
             # a sink with regok can be re-offered the same cached item of an input_node: only count accepted offers there
             pass
     # exactly once in accepting graphs without cancellation: every accepted external message reaches every node on every path
-    accepting = all(nd["kind"] not in ("func", "mfunc") or nd["pol"] == "q" or nd["maxc"] == 0 for nd in nodes)
+    accepting = all(nd["kind"] not in ("func", "mfunc", "async") or nd["pol"] == "q" or nd["maxc"] == 0 for nd in nodes)
     # a scripted sink that rejects AND registers the sender as predecessor takes over the edge (pull mode): not an accepting receiver
     moded = set(int(l.split()[1]) for l in lines if l.startswith("mode ") and len(l.split()) == 3 and l.split()[1].isdigit())
     accepting = accepting and all(nd["kind"] != "sink" or nd["regok"] == 0 or (nd["rejmod"] == 0 and i not in moded) for i, nd in enumerate(nodes))
     drained = last is not None and not last["pool"]
     if accepting and not risky and drained:
         for m, og in sorted(origin.items()):
-            if nodes[og]["kind"] not in ("func", "mfunc"):
+            if nodes[og]["kind"] not in ("func", "mfunc", "async"):
                 continue
             for n, nd in enumerate(nodes):
-                if nd["kind"] in ("func", "mfunc") and paths(og, n) != bcount.get((n, m), 0):
+                if nd["kind"] in ("func", "mfunc", "async") and paths(og, n) != bcount.get((n, m), 0):
                     bad.append(("lost-message", "accepting graph, drained: message %d accepted by node %d ran %d time(s) at node %d, expected %d" % (m, og, bcount.get((n, m), 0), n, paths(og, n))))
                 if nd["kind"] == "sink" and paths(og, n) != ocount.get((n, m), 0):
                     bad.append(("lost-message", "accepting graph, drained: message %d accepted by node %d was offered %d time(s) to sink %d, expected %d" % (m, og, ocount.get((n, m), 0), n, paths(og, n))))
+    if accepting and not risky and drained:
+        for m, a in sorted(gorigin.items()):        # what a gateway put is processed exactly once on every path from the async node's port
+            for n, nd in enumerate(nodes):
+                if nd["kind"] in ("func", "mfunc", "async") and gpaths(a, n) != bcount.get((n, m), 0):
+                    bad.append(("lost-message", "accepting graph, drained: message %d put through the gateway of node %d ran %d time(s) at node %d, expected %d" % (m, a, bcount.get((n, m), 0), n, gpaths(a, n))))
     return bad
 
 
@@ -542,6 +756,12 @@ CORPUS = [
     ["node 0 input 100 101", "node 1 input 200 201", "node 2 proxy 3", "node 3 func 1 r 0", "node 4 sink 0 0", "edge 0 3", "edge 1 2", "edge 3 4", "go",
      "put 3 1", "activate 0", "run p0", "run f3", "run b3.1", "run b3.100", "put 3 2", "activate 1", "hook 2 b3.2", "run p1", "run p0", "run p0",
      "run f3", "run b3.200", "run p1", "run p1", "wfa"],
+    # async node: the body reserves the gateway; wait_for_all stays blocked until the foreign thread's put was processed AND release_wait
+    ["node 0 async 1 q 1", "node 1 func 1 q 0", "node 2 sink 0 0", "edge 0 1", "edge 1 2", "go", "put 0 5", "put 0 6", "run b0.5", "wfa", "gput 0 50",
+     "run b0.6", "grel 0", "wfa", "run b1.50", "gput 0 60", "grel 0", "wfa", "run b1.60", "wfa", "grel 0"],
+    # async node in front of a rejecting serial node: a gateway put that is rejected is reported as such (no buffering in the gateway)
+    ["node 0 async 0 r 1", "node 1 func 1 r 0", "node 2 sink 0 0", "edge 0 1", "edge 1 2", "go", "put 0 1", "run b0.1", "gput 0 10", "gput 0 11", "grel 0",
+     "wfa", "run b1.10", "gput 0 12", "run b1.12", "wfa"],
     # multifunction node
     ["node 0 mfunc 1 q", "node 1 func 1 r 0", "node 2 sink 3 1", "edge 0 1", "edge 0 2", "edge 1 2", "go",
      "put 0 3", "put 0 6", "put 0 7", "run b0.3", "run b0.6", "run b1.3", "run f1", "run b0.7", "run b1.7", "wfa"],
@@ -567,7 +787,7 @@ def shrink_script(exe, lines, still_bad):
         rounds += 1
         i = len(cur) - 1
         while i >= 0:
-            if cur[i].startswith("node ") or cur[i] == "go":
+            if cur[i].split()[0] in ("node", "go", "lim", "snd", "inp", "edge"):
                 i -= 1
                 continue
             cand = cur[:i] + cur[i + 1:]
@@ -593,6 +813,8 @@ def meta_of_lines(lines):
                 nodes.append({"kind": k, "maxc": int(w[3]), "pol": w[4], "lw": int(w[5])})
             elif k == "mfunc":
                 nodes.append({"kind": k, "maxc": int(w[3]), "pol": w[4]})
+            elif k == "async":
+                nodes.append({"kind": k, "maxc": int(w[3]), "pol": w[4], "resv": int(w[5])})
             elif k == "cont":
                 nodes.append({"kind": k, "lw": int(w[3])})
             elif k == "sink":
@@ -617,7 +839,7 @@ def run_mock(ck, exe):
         scripts.append((c, outs, meta_of_lines(c), rc))
     for si in range(nscripts):
         try:
-            lines, outs, meta, rc = gen_script(ck.rng, exe, ck.rng.choice([12, 25, 40, 60]))
+            lines, outs, meta, rc = gen_script(ck.rng, exe, ck.rng.choice([12, 25, 40, 60]), fault=(si % 5 == 4))
         except RuntimeError as e:
             mon_bad.append((("harness-crash", str(e)), [], None))
             continue
@@ -635,7 +857,9 @@ def run_mock(ck, exe):
             corr_bad.append((d, lines, meta))
         for b in mock_monitors(meta, lines, outs):
             mon_bad.append((b, lines, meta))
-    ck.extra["mock"] = {"scripts": len(scripts), "script_lines": nlines}
+    ck.extra["mock"] = {"scripts": len(scripts), "script_lines": nlines,
+                        "fault_schedule_scripts": sum(1 for (ls, _o, _m, _r) in scripts if any(l.startswith("throw ") or l == "cancel" for l in ls)),
+                        "bodies_thrown": sum(1 for (_l, os_, _m, _r) in scripts for o in os_ if o.count(" | ") == 4 and "!" in o.split(" | ")[1])}
     if scripts:
         ck.sample({"engine": "E-MOCK", "script": scripts[min(3, len(scripts) - 1)][0][:40], "impl_output_tail": scripts[min(3, len(scripts) - 1)][1][-3:]})
     ck.oblige("corr:E-MOCK real node classes vs Lean interpreter (results, events, pending tasks, wait vertex, white-box node state)",
@@ -871,10 +1095,828 @@ def run_cache(ck, exe):
         ck.counterexample("cache:" + bad[0].split()[0], "successor cache `%s` produced offers/remaining `%s`" % bad, {"engine": "E-MOCK", "cache_line": bad[0], "impl_output": bad[1]})
 
 
+
+# ---------------------------------------------------------------------------------------------------
+# E-MOCK (a): reservation protocol — real limiter_node / input_node on the mock r1 with nested windows
+# (harness/c14/res.cpp) vs `c14res` / `c14inp`, plus implementation-side monitors
+# ---------------------------------------------------------------------------------------------------
+def build_res():
+    return cxx_build("C14", "res", ["harness/c14/res.cpp", STUBS], flags=["-O1", "-g", "-fno-access-control"])
+
+
+def run_script(exe, args, lines, timeout=20):
+    """-> (output lines, rc) ; rc 124 = hang"""
+    rc, out, err = sh([exe] + args, input="\n".join(lines) + "\n", timeout=timeout)
+    outs = out.split("\n")[:-1] if out.endswith("\n") else out.split("\n")
+    return outs, rc
+
+
+def res_parse(o):
+    f = o.split(" | ")
+    if len(f) < 4:
+        return None
+    st = {"res": f[0], "ev": [] if f[1] == "-" else f[1].split()}
+    for kv in (f[2] + " " + f[3]).split():
+        k, _, v = kv.partition("=")
+        st[k] = v
+    st["snd"] = f[4].split(" ; ") if len(f) > 4 else []
+    return st
+
+
+RES_CORPUS = [
+    # one sender, threshold 1: reserve, deliver, consume; rejected offer releases and the item is delivered later
+    ["lim 1", "snd 0", "go", "sput 0 100", "sput 0 101", "ans r", "regpred 0", "run", "run", "dec", "run", "dec", "run"],
+    # the seeded window: attempt 0 is inside sender 0's try_reserve (reserved_src = 0) when the decrementer starts attempt 1 (the
+    # second pull-mode sender keeps check_conditions() true); attempt 1's try_reserve fails; it must leave attempt 0's reservation alone
+    ["lim 2", "snd 0", "snd 1", "go", "sput 0 100", "sput 0 101", "sput 1 200", "regpred 0", "regpred 1", "hook res 0", "run", "dec", "resume",
+     "run", "run", "run", "dec", "run", "run"],
+    # the same window entered from a pending forward task and from register_predecessor; the nested attempt is itself suspended
+    ["lim 3", "snd 0", "snd 1", "snd 2", "go", "sput 0 1", "sput 1 2", "sput 2 3", "regpred 0", "regpred 1", "hook res 0", "hook res 1", "run", "run",
+     "regpred 2", "run", "resume", "resume", "run", "run", "run", "run"],
+    # empty senders: the failed reserve re-registers the sender in push mode and clears reserved_src
+    ["lim 2", "snd 0", "snd 1", "go", "regpred 0", "regpred 1", "sput 1 7", "run", "run", "dec"],
+    # push path interleaved with a suspended pull attempt
+    ["lim 2", "snd 0", "go", "sput 0 5", "regpred 0", "hook res 0", "run", "put 9", "ans r", "put 10", "resume", "dec", "dec", "run", "run"],
+    ["frob", "lim 2", "lim x", "snd 1", "snd 0", "resume", "go", "go", "run", "resume", "sput 3 1", "hook res 9", "dec"],
+]
+INP_CORPUS = [
+    # put task 0 is inside the successors' try_put_task (item 5 reserved) while put task 1 runs: it returns at once
+    ["inp 5 8", "go", "act", "hook put", "run", "run", "resume", "run", "run", "run", "run"],
+    # rejected: released, pulled by the external successor; reservation by the external successor blocks the put task
+    ["inp 5 7", "go", "act", "ans r", "run", "xget", "run", "xres", "run", "xres", "run", "xrel", "run", "xres", "xcon", "run", "run", "run"],
+    ["inp 1 2", "go", "hook put", "act", "run", "xget", "xres", "act", "resume", "run", "run", "xget"],
+    ["frob", "inp 1", "go", "xrel", "resume", "run", "act", "act"],
+]
+
+
+def gen_res_script(rng, exe, nops):
+    it = Inter(exe)
+    try:
+        th = rng.choice([0, 1, 1, 2, 2, 2, 3, 3])
+        ns = rng.choice([1, 2, 2, 3, 3])
+        it.send("lim %d" % th)
+        for i in range(ns):
+            it.send("snd %d" % i)
+        st = res_parse(it.send("go"))
+        nid = [100]
+
+        def one():
+            r = rng.random()
+            q = [] if st["q"] == "-" else [int(x) for x in st["q"].split(",")]
+            rs = None if st["r"] == "-" else int(st["r"])
+            susp = [] if st["susp"] == "-" else st["susp"].split(",")
+            pend = int(st["pend"])
+            if r < 0.22:
+                nid[0] += 1
+                return "sput %d %d" % (rng.randrange(ns), nid[0])
+            if r < 0.36:
+                cands = [p for p in range(ns) if p not in q and p != rs]
+                if cands:
+                    return "regpred %d" % rng.choice(cands)
+            if r < 0.50 and pend:
+                return "run"
+            if r < 0.62:
+                return "dec"
+            if r < 0.74:
+                return "hook res %d" % rng.randrange(ns)
+            if r < 0.86 and susp:
+                return "resume"
+            if r < 0.91:
+                return "ans " + rng.choice("ar")
+            if r < 0.97:
+                nid[0] += 1
+                return "put %d" % nid[0]
+            return rng.choice(["run", "resume", "frob", "sput 9 1", "regpred 7", "hook put"])
+        for _ in range(nops):
+            o = it.send(one())
+            st = res_parse(o) or st
+        for _ in range(60):     # unwind and drain
+            if st["susp"] != "-":
+                st = res_parse(it.send("resume")) or st
+            elif int(st["pend"]):
+                st = res_parse(it.send("run")) or st
+            else:
+                break
+    finally:
+        rc = it.close()
+    return it.lines, it.outs, rc
+
+
+def gen_inp_script(rng, exe, nops):
+    it = Inter(exe, ["inp"])
+    try:
+        first = rng.choice([1, 10, 100])
+        it.send("inp %d %d" % (first, first + rng.choice([0, 1, 2, 3, 5])))
+        st = res_parse(it.send("go"))
+        xholds = False
+        for _ in range(nops):
+            r = rng.random()
+            susp = st["susp"] != "-"
+            pend = int(st["pend"])
+            if r < 0.10 and not susp:
+                l = "act"
+            elif r < 0.45 and pend:
+                l = "run"
+            elif r < 0.57:
+                l = "hook put"
+            elif r < 0.70 and susp:
+                l = "resume"
+            elif r < 0.78:
+                l = "ans " + rng.choice("ar")
+            elif r < 0.86:
+                l = "xget"
+            elif r < 0.93:
+                l = ("xrel" if rng.random() < 0.5 else "xcon") if xholds else "xres"
+            else:
+                l = rng.choice(["act", "run", "resume", "xrel", "frob"])
+            o = it.send(l)
+            stn = res_parse(o)
+            if stn:
+                st = stn
+                if l == "xres" and stn["res"] == "1":
+                    xholds = True
+                if l in ("xrel", "xcon"):
+                    xholds = False
+        for _ in range(60):
+            if st["susp"] != "-":
+                st = res_parse(it.send("resume")) or st
+            elif xholds:
+                st = res_parse(it.send("xrel")) or st
+                xholds = False
+            elif int(st["pend"]):
+                st = res_parse(it.send("run")) or st
+            else:
+                break
+    finally:
+        rc = it.close()
+    return it.lines, it.outs, rc
+
+
+def res_monitors(lines, outs):
+    """implementation-side monitors of the reservation protocol (limiter mode); values put into senders are unique"""
+    bad = []
+    owner = {}       # sender -> (op, value) currently reserved
+    delivered = {}   # value -> count
+    deliv_by = {}    # op -> set of values accepted by the successors since its reservation
+    arrived = {}     # sender -> list
+    consumed = {}    # sender -> list
+    last = None
+    for li, (l, o) in enumerate(zip(lines, outs)):
+        w = l.split()
+        st = res_parse(o) if o != "bad-op" else None
+        if st is None:
+            continue
+        if w[0] == "sput":
+            arrived.setdefault(int(w[1]), []).append(int(w[2]))
+        for e in st["ev"]:
+            m = re.fullmatch(r"(res|rel|con|rs|put)(-?\d+):(\d+)(?::(-|\d+|a|r))?", e)
+            if not m:
+                continue
+            k, op, x, y = m.group(1), int(m.group(2)), int(m.group(3)), m.group(4)
+            if k == "res" and y != "-":
+                if x in owner:
+                    bad.append(("double-reservation", "line %d `%s`: operation %d reserved item %s of sender %d while operation %d holds a reservation there" % (li, l, op, y, x, owner[x][0])))
+                owner[x] = (op, int(y))
+                deliv_by[op] = set()
+            elif k in ("rel", "con"):
+                if x not in owner or owner[x][0] != op:
+                    bad.append(("reservation-not-owner", "line %d `%s`: operation %d called try_%s on sender %d, whose reservation %s" % (
+                        li, l, op, "release" if k == "rel" else "consume", x, ("belongs to operation %d" % owner[x][0]) if x in owner else "nobody holds")))
+                else:
+                    v = owner[x][1]
+                    if k == "con":
+                        consumed.setdefault(x, []).append(v)
+                        if v not in deliv_by.get(op, ()):
+                            bad.append(("consumed-undelivered", "line %d `%s`: operation %d consumed item %d of sender %d that no successor accepted (lost)" % (li, l, op, v, x)))
+                    elif v in deliv_by.get(op, ()):
+                        bad.append(("released-after-delivery", "line %d `%s`: operation %d released item %d of sender %d after a successor accepted it (it will be delivered again)" % (li, l, op, v, x)))
+                    del owner[x]
+            elif k == "put" and y == "a" and op >= 0:
+                delivered[x] = delivered.get(x, 0) + 1
+                deliv_by.setdefault(op, set()).add(x)
+                if delivered[x] > 1:
+                    bad.append(("duplicate-delivery", "line %d `%s`: value %d was accepted by the successors %d times" % (li, l, x, delivered[x])))
+        if "!" in o.split(" | ")[-1]:
+            bad.append(("reservation-not-owner", "line %d `%s`: a sender saw try_release/try_consume without holding a reservation: %s" % (li, l, o.split(" | ")[-1])))
+        # an operation that finished must not keep a reservation
+        busy = set() if st["susp"] == "-" else set(int(x) for x in st["susp"].split(","))
+        for x, (op, v) in list(owner.items()):
+            if op not in busy and st["res"] in ("done", "ok", "0", "1"):
+                bad.append(("reservation-leaked", "line %d `%s`: operation %d returned but item %d of sender %d is still reserved (delivered=%s): it can never be forwarded again" % (
+                    li, l, op, v, x, v in deliv_by.get(op, ()))))
+                del owner[x]
+        if st["susp"] == "-" and st.get("r", "-") != "-" and st["res"] in ("done", "ok", "0", "1"):
+            bad.append(("reservation-leaked", "line %d `%s`: no operation is in progress but reserved_src is still set (sender %s)" % (li, l, st["r"])))
+        last = st
+    if last is not None and last["susp"] == "-":
+        for x, arr in arrived.items():
+            items = []
+            for sd in last["snd"]:
+                i, _, rest = sd.partition(":")
+                if int(i) == x:
+                    rest = rest.rstrip("^!*")
+                    items = [] if rest == "-" else [int(t) for t in rest.split(",")]
+            if consumed.get(x, []) + items != arr:
+                bad.append(("sender-conservation", "sender %d: arrived %s != consumed %s + remaining %s" % (x, arr, consumed.get(x, []), items)))
+            for v in consumed.get(x, []):
+                if delivered.get(v, 0) != 1:
+                    bad.append(("consumed-undelivered", "item %d of sender %d was consumed but delivered %d time(s)" % (v, x, delivered.get(v, 0))))
+    return bad
+
+
+def inp_monitors(lines, outs):
+    """input_node: each generated id is generated once, offered-and-accepted at most once, taken exactly once or still cached"""
+    bad = []
+    gen, acc, taken = [], {}, []
+    holder = None
+    xitem = None
+    last = None
+    for li, (l, o) in enumerate(zip(lines, outs)):
+        st = res_parse(o) if o != "bad-op" else None
+        if st is None:
+            continue
+        for e in st["ev"]:
+            if e.startswith("G") and e != "Gstop":
+                v = int(e[1:])
+                if v in gen:
+                    bad.append(("body-twice", "line %d `%s`: the body generated id %d again" % (li, l, v)))
+                if st["r"] == "1" and holder is not None:
+                    bad.append(("body-while-reserved", "line %d `%s`: the body ran while the cached item was reserved" % (li, l)))
+                gen.append(v)
+            m = re.fullmatch(r"O(\d+):(\d+):([ar])", e)
+            if m:
+                op, v = int(m.group(1)), int(m.group(2))
+                if holder is not None and holder != op:
+                    bad.append(("reservation-not-owner", "line %d `%s`: put task %d offered item %d while %s holds the reservation" % (li, l, op, v, holder)))
+                if m.group(3) == "a":
+                    acc[v] = acc.get(v, 0) + 1
+                    if acc[v] > 1:
+                        bad.append(("duplicate-delivery", "line %d `%s`: id %d accepted by the successors %d times" % (li, l, v, acc[v])))
+            if e.startswith("T") and e != "T-":
+                taken.append(int(e[1:]))
+            if e.startswith("R") and e != "R-":
+                holder = "ext"
+                xitem = int(e[1:])
+        w = l.split()
+        if w[0] in ("xrel", "xcon") and st["res"] == "ok":
+            holder = None
+        if st["susp"] == "-" and holder is None and st["r"] == "1":
+            bad.append(("reservation-leaked", "line %d `%s`: no put task is in progress and the external successor holds nothing, but my_reserved is still set: "
+                        "the cached item %s can never be delivered" % (li, l, st["i"])))
+        if w[0] == "xcon" and st["res"] == "ok":
+            taken.append(xitem)
+        last = st
+    if gen != list(range(gen[0], gen[0] + len(gen))) if gen else False:
+        bad.append(("body-twice", "generated ids are not consecutive: %s" % gen))
+    if last is not None and last["susp"] == "-":
+        cached = [int(last["i"])] if last["h"] == "1" else []
+        for v in gen:
+            if not acc.get(v, 0) and v not in taken and v not in cached:
+                bad.append(("generated-item-lost", "id %d was produced by the body but was neither accepted by a successor, nor taken by the external successor, nor is it cached" % v))
+                break
+    for v in taken:
+        if acc.get(v, 0):
+            bad.append(("duplicate-delivery", "id %d was accepted by the successors and also handed to the external successor" % v))
+    return bad
+
+
+def run_res(ck, exe):
+    quick = ck.tier == "quick"
+    for mode, args, corpus, genf, monf, model, n in (
+            ("res", [], RES_CORPUS, gen_res_script, res_monitors, "c14res", 500 if quick else 8000),
+            ("inp", ["inp"], INP_CORPUS, gen_inp_script, inp_monitors, "c14inp", 300 if quick else 5000)):
+        scripts = []
+        for c in corpus:
+            outs, rc = run_script(exe, args, c)
+            scripts.append((c, outs, rc))
+        crash = []
+        for _ in range(n):
+            try:
+                lines, outs, rc = genf(ck.rng, exe, ck.rng.choice([8, 16, 30, 50]))
+            except RuntimeError as e:
+                crash.append(str(e))
+                continue
+            scripts.append((lines, outs, rc))
+        corr_bad, mon_bad = [], []
+        for lines, outs, rc in scripts:
+            ck.count(len(lines), (mode, tuple(sorted(set(l.split()[0] for l in lines))), sum(1 for o in outs if o.startswith("susp")) > 0,
+                                  sum(1 for l in lines if l.startswith("snd "))))
+            ck.traces_validated += 1
+            if rc not in (0, None):
+                mon_bad.append((("harness-crash", "harness exited with rc=%s (124 = hang: an operation never returned)" % rc), lines))
+            try:
+                mo = drv(model, "\n".join(lines) + "\n")
+                d = first_diff(outs, mo)
+                if d is not None:
+                    corr_bad.append((d, outs[d] if d < len(outs) else "<missing>", mo[d] if d < len(mo) else "<missing>", lines))
+            except BuildError as e:
+                corr_bad.append((0, "<model driver unavailable>", str(e)[-200:], lines))
+            for b in monf(lines, outs):
+                mon_bad.append((b, lines))
+        for c in crash[:1]:
+            mon_bad.append((("harness-crash", c), []))
+        ck.extra["res_" + mode] = {"scripts": len(scripts), "with_nested_windows": sum(1 for _l, o, _r in scripts if any(x.startswith("susp") for x in o))}
+        ck.sample({"engine": "E-MOCK", "mode": mode, "script": scripts[1][0], "impl_output_tail": scripts[1][1][-3:]})
+        what = ("real limiter_node + reservable_predecessor_cache" if mode == "res" else "real input_node put tasks + external reserving successor")
+        ck.oblige("corr:E-MOCK %s with nested windows vs Lean `%s` (events with operation ids, counters, my_q, reserved_src, sender / node state)" % (what, model),
+                  "correspondence", not corr_bad,
+                  "" if not corr_bad else "line %d: impl `%s` model `%s` | script %s" % corr_bad[0])
+        ck.oblige("monitor:E-MOCK %s: only the reserver releases/consumes, consumed iff delivered, delivered at most once, no reservation leaked" % what,
+                  "correspondence", not mon_bad, "" if not mon_bad else "%s | script %s" % (mon_bad[0][0], mon_bad[0][1]))
+        reported = set()
+        for (key, text), lines in mon_bad:
+            if key in reported or not lines or len(reported) >= 2:
+                continue
+            reported.add(key)
+
+            def still(ls, key=key):
+                o, rc = run_script(exe, args, ls)
+                return (key == "harness-crash" and rc not in (0, None)) or any(k == key for (k, _t) in monf(ls, o))
+            small = shrink_script(exe, lines, still)
+            o, rc = run_script(exe, args, small)
+            texts = [t for (k, t) in monf(small, o) if k == key]
+            ck.counterexample(mode + ":" + key, texts[0] if texts else text, {"engine": "E-MOCK", "mode": mode, "script": small, "monitor": key, "impl_output": o[-6:]})
+
+
+
+# ---------------------------------------------------------------------------------------------------
+# (b) wait-context vertex + thread reference vertices + gateway references
+# ---------------------------------------------------------------------------------------------------
+TASK_H = os.path.join(REPO, "include/oneapi/tbb/detail/_task.h")
+FG_IMPL_H = os.path.join(REPO, "include/oneapi/tbb/detail/_flow_graph_impl.h")
+WAIT_FLAGS = ["refReserveOnZero", "refReleaseOnZero", "taskCtorReserves", "taskFinalizeReleases", "reserveWaitReserves", "releaseWaitReleases", "waitWhilePositive"]
+
+
+def extract_wait(task_h, impl_h, fg_h):
+    res = {"known": True, "why": []}
+
+    def unknown(msg):
+        res["known"] = False
+        res["why"].append(msg)
+    task = _norm(open(task_h).read())
+    impl = _norm(open(impl_h).read())
+    fg = _norm(open(fg_h).read())
+    rv = _class_text(task, r"class reference_vertex\s*:[^{;]*\{") or ""
+    b = _body_after(rv, r"void reserve\s*\([^)]*\)\s*(?:override)?\s*\{") or ""
+    res["refReserveOnZero"] = bool(re.fullmatch(r"\s*if\s*\(\s*m_ref_count\.fetch_add\([^;{}]*\)\s*==\s*0\s*\)\s*\{\s*my_parent->reserve\(\s*\)\s*;\s*\}\s*", b))
+    b = _body_after(rv, r"void release\s*\([^)]*\)\s*(?:override)?\s*\{") or ""
+    m = re.search(r"(\w+)\s*=\s*m_ref_count\.fetch_sub\(\s*(?:static_cast<[^>]*>\()?\s*(\w+)\s*\)?\s*\)\s*-\s*(?:static_cast<[^>]*>\()?\s*(\w+)\s*\)?\s*;\s*if\s*\(\s*(\w+)\s*==\s*0\s*\)\s*\{\s*(\w+)->release\(\s*\)\s*;", b)
+    res["refReleaseOnZero"] = bool(m and m.group(1) == m.group(4) and m.group(2) == m.group(3))
+    if not (res["refReserveOnZero"] and res["refReleaseOnZero"]) and "fetch_" not in rv:
+        unknown("reference_vertex::reserve/release not recognised")
+    wc = _class_text(task, r"class wait_context\s*\{") or ""
+    b = _body_after(wc, r"bool continue_execution\s*\(\s*\)\s*const\s*\{") or ""
+    m = re.search(r"(\w+)\s*=\s*m_ref_count\.load\([^)]*\)\s*;.*return\s+(\w+)\s*>\s*0\s*;", b)
+    res["waitWhilePositive"] = bool(m and m.group(1) == m.group(2))
+    # graph_task constructor / finalize
+    ctor = _body_after(impl, r"inline graph_task::graph_task\s*\([^)]*\)\s*:[^{]*\{") or ""
+    m = re.search(r"my_reference_vertex\s*=\s*is_this_thread_in_graph_arena\(\s*\w+\s*\)\s*\?\s*r1::get_thread_reference_vertex\(\s*(\w+)\s*\)\s*:\s*(\w+)\s*;", ctor)
+    res["taskCtorReserves"] = bool(m and m.group(1) == m.group(2) and re.search(r"my_reference_vertex->reserve\(\s*\)\s*;", ctor[m.end():]))
+    fin = _body_after(impl, r"inline void graph_task::finalize\s*\([^)]*\)\s*\{") or ""
+    m = re.search(r"(\w+)\s*=\s*my_reference_vertex\s*;\s*destruct_and_deallocate<\w+>\(\s*\w+\s*\)\s*;\s*(\w+)->release\(\s*\)\s*;", fin)
+    res["taskFinalizeReleases"] = bool(m and m.group(1) == m.group(2))
+    b = _body_after(fg, r"inline void graph::reserve_wait\s*\(\s*\)\s*\{") or ""
+    res["reserveWaitReserves"] = bool(re.search(r"my_wait_context_vertex\.reserve\(\s*\)\s*;", b)) and "release" not in b.replace("fgt_release", "")
+    b = _body_after(fg, r"inline void graph::release_wait\s*\(\s*\)\s*\{") or ""
+    res["releaseWaitReleases"] = bool(re.search(r"my_wait_context_vertex\.release\(\s*\)\s*;", b)) and ".reserve(" not in b
+    gw = _class_text(fg, r"class receiver_gateway_impl\s*:[^{;]*\{") or ""
+    b1 = _body_after(gw, r"void reserve_wait\s*\(\s*\)\s*(?:override)?\s*\{") or ""
+    b2 = _body_after(gw, r"void release_wait\s*\(\s*\)\s*(?:override)?\s*\{") or ""
+    if not re.search(r"my_node->my_graph\.reserve_wait\(\s*\)\s*;", b1):
+        res["reserveWaitReserves"] = False
+    if not re.search(r"\b(\w+)->release_wait\(\s*\)\s*;", b2):
+        res["releaseWaitReleases"] = False
+    wfa = _body_after(impl, r"void wait_for_all\s*\(\s*\)\s*\{") or ""
+    if not re.search(r"d1::wait\(\s*my_wait_context_vertex\.get_context\(\)\s*,\s*\*my_context\s*\)", wfa):
+        unknown("graph::wait_for_all no longer waits on my_wait_context_vertex")
+    return res
+
+
+def gen_wait(ck):
+    try:
+        r = extract_wait(TASK_H, FG_IMPL_H, FLOW_GRAPH_H)
+    except OSError as e:
+        r = {"known": False, "why": [str(e)]}
+    ck.extra["generated_wait"] = r
+    ck.oblige("gen:wait tree skeleton (reference_vertex, wait_context::continue_execution, graph_task ctor/finalize, reserve_wait/release_wait, gateway) recognised",
+              "generated", r.get("known", False), "; ".join(r.get("why", [])) or str({k: r.get(k) for k in WAIT_FLAGS}))
+    body = "def skeletonKnown : Bool := %s\n" % ("true" if r.get("known") else "false")
+    for k in WAIT_FLAGS:
+        body += "def %s : Bool := %s\n" % (k, "true" if r.get(k) else "false")
+    gen_write("C14Wait", body)
+
+
+def build_limshim():
+    return cxx_build("C14", "limshim", ["harness/c14/limshim.cpp", common.SHIM_SRC, STUBS], flags=["-O1", "-g", "-fno-access-control"] + common.SHIM_FLAGS)
+
+
+def run_limshim(ck, exe):
+    """E-SHIM: real limiter_node, real threads, every spin_mutex acquisition a scheduling point; implementation-side monitors only"""
+    quick = ck.tier == "quick"
+    n = 250 if quick else 4000
+    bad = None
+    runs = 0
+    for (T, TH, NS, NI) in ((3, 2, 2, 3), (4, 3, 3, 2), (2, 1, 1, 4), (3, 2, 1, 4), (4, 2, 2, 2)):
+        seed0 = ck.rng.randrange(1 << 30)
+        rc, out, err = sh([exe, "rand", str(seed0), str(n), str(T), str(TH), str(NS), str(NI)], timeout=900)
+        lines = out.split("\n")
+        for l in lines:
+            if l.startswith("done "):
+                runs += int(l.split()[1].split("=")[1])
+        ck.count(n, ("limshim", T, TH, NS, NI))
+        if rc != 0 and bad is None:
+            seed, mon, sched = None, "harness rc=%s %s" % (rc, (out + err)[-200:]), []
+            for l in lines:
+                if l.startswith("run ") and seed is None:
+                    seed = int(l.split()[1])
+                elif l.startswith("mon ") and mon.startswith("harness"):
+                    mon = l[4:]
+                elif l.startswith("sched") and not sched:
+                    sched = l.split()[1:]
+            bad = (mon, {"engine": "E-SHIM", "harness": "limshim", "seed": seed, "params": [T, TH, NS, NI], "schedule": sched})
+    ck.extra["limshim"] = {"runs": runs}
+    ck.oblige("monitor:E-SHIM real limiter_node with real threads at every mutex-section boundary: only the reserving thread releases/consumes, accepted at most once, "
+              "consumed iff accepted, nothing left reserved, per-sender conservation", "correspondence", bad is None and runs > 0, "" if bad is None else bad[0])
+    if bad is not None and bad[1]["seed"] is not None:
+        key = "limshim:" + (bad[0].split(":")[0].replace("VIOLATION ", "").replace(" ", "-") if bad[0].startswith("VIOLATION") else "crash")
+        ck.counterexample(key, bad[0], bad[1])
+
+
+def build_wt():
+    return cxx_build("C14", "wt", ["harness/c14/wt.cpp", common.SHIM_SRC, STUBS], flags=["-O1", "-g", "-fno-access-control"] + common.SHIM_FLAGS)
+
+
+def run_wt(ck, exe):
+    quick = ck.tier == "quick"
+    nseeds = 400 if quick else 6000
+    seed0 = ck.rng.randrange(1 << 30)
+    corr_bad, mon_bad = None, None
+    nruns = nev = 0
+    for (T, nops, n) in ((2, 6, nseeds // 4), (3, 8, nseeds // 2), (4, 10, nseeds // 4)):
+        rc, out, err = sh([exe, str(seed0), str(n), str(T), str(nops)], timeout=600)
+        if rc != 0:
+            mon_bad = mon_bad or ("harness rc=%s: %s" % (rc, (out + err)[-300:]), None)
+        seed0 += n
+        cur, seed = None, None
+        for l in out.split("\n"):
+            w = l.split()
+            if not w:
+                continue
+            if w[0] == "run":
+                cur, seed = [], (int(w[1]), int(w[2]))
+            elif w[0] in ("final", "sched"):
+                continue
+            elif w[0] == "mon":
+                if w[1] != "ok" and mon_bad is None:
+                    mon_bad = (l[4:], {"seed": seed[0], "threads": seed[1], "ops": nops, "trace": list(cur)})
+            elif w[0] == "end":
+                nruns += 1
+                nev += len(cur)
+                ck.count(len(cur), ("wt", T, tuple(sorted(set(x.split()[0] for x in cur)))))
+                ck.traces_validated += 1
+                if corr_bad is None:
+                    script = ["threads %d" % seed[1]] + [" ".join(x.split()[:-1]) for x in cur]
+                    try:
+                        mo = drv("c14wt", "\n".join(script) + "\n")
+                    except BuildError as e:
+                        corr_bad = ("model driver unavailable: %s" % str(e)[-200:], None)
+                        continue
+                    for i, x in enumerate(cur):
+                        old = int(x.split()[-1])
+                        got = mo[i + 1].split(" | ")[0] if i + 1 < len(mo) else "<missing>"
+                        exp = ("cont" if old > 0 else "ret") if x.startswith("T") else str(old)
+                        if got != exp:
+                            corr_bad = ("seed %d: access %d `%s`: the real code read %s, the model says `%s`" % (seed[0], i, x, exp, got),
+                                        {"seed": seed[0], "threads": seed[1], "ops": nops, "trace": list(cur)})
+                            break
+            elif cur is not None:
+                cur.append(l)
+    ck.extra["wt"] = {"runs": nruns, "atomic_accesses_replayed": nev}
+    ck.oblige("corr:E-SHIM real wait_context_vertex + reference_vertex under the controlled scheduler vs Lean `c14wt` (every atomic access reads the value the model predicts)",
+              "correspondence", corr_bad is None and nruns > 0, "" if corr_bad is None else corr_bad[0])
+    ck.oblige("monitor:E-SHIM wait_for_all's test never reads 0 while a completed reserve_wait / fully constructed task is outstanding",
+              "correspondence", mon_bad is None, "" if mon_bad is None else mon_bad[0])
+    for key, b in (("wt:early-return", mon_bad), ("wt:count-diverges", corr_bad)):
+        if b is not None and b[1] is not None and key == "wt:early-return":
+            ck.counterexample(key, b[0], {"engine": "E-SHIM", "harness": "wt", **b[1]})
+
+
+
+# ---------------------------------------------------------------------------------------------------
+# (c) try_put_and_wait: order / balance facts of the metainfo-carrying paths (Generated/C14Meta.lean)
+# ---------------------------------------------------------------------------------------------------
+BODY_IMPL_H = os.path.join(REPO, "include/oneapi/tbb/detail/_flow_graph_body_impl.h")
+ITEM_BUF_H = os.path.join(REPO, "include/oneapi/tbb/detail/_flow_graph_item_buffer_impl.h")
+JOIN_IMPL_H = os.path.join(REPO, "include/oneapi/tbb/detail/_flow_graph_join_impl.h")
+META_FLAGS = ["taskPutBeforeFinalize", "pqrCopyBeforePop", "bufferPutBeforeDestroy", "joinPutBeforeAccepted", "limiterPutBeforeConsume",
+              "slotReservesOnCopy", "slotReleasesOnDestroy", "taskReservesOnCopy", "taskReleasesOnFinalize", "tpwWaitsOnOwnVertex"]
+
+
+def _norm_meta(s):
+    """comments removed, preprocessor lines dropped (both branches kept), the METAINFO_ARG macro expanded, whitespace squeezed"""
+    s = _strip_comments(s)
+    s = re.sub(r"__TBB_FLOW_GRAPH_METAINFO_ARG\(((?:[^()]|\([^()]*\))*)\)", r", \1", s)
+    s = re.sub(r"^\s*#[^\n]*$", "", s, flags=re.M)
+    return re.sub(r"\s+", " ", s)
+
+
+def _before(txt, a, b):
+    ma, mb = re.search(a, txt or ""), re.search(b, txt or "")
+    return bool(ma and mb and ma.start() < mb.start())
+
+
+def extract_meta():
+    res = {"known": True, "why": []}
+
+    def unknown(msg):
+        res["known"] = False
+        res["why"].append(msg)
+    body = _norm_meta(open(BODY_IMPL_H).read())
+    node = _norm_meta(open(NODE_IMPL).read())
+    fg = _norm_meta(open(FLOW_GRAPH_H).read())
+    ib = _norm_meta(open(ITEM_BUF_H).read())
+    jn = _norm_meta(open(JOIN_IMPL_H).read())
+    impl = _norm_meta(open(FG_IMPL_H).read())
+    t = _class_text(body, r"class apply_body_task_bypass\s*:[^{;]*\{") or ""
+    ex = _body_after(t, r"d1::task\s*\*\s*execute\s*\([^)]*\)\s*override\s*\{")
+    if ex is None:
+        unknown("apply_body_task_bypass::execute not found")
+    res["taskPutBeforeFinalize"] = _before(ex, r"call_apply_body_bypass\(\s*\)", r"finalize<") and len(re.findall(r"finalize<", ex or "")) == 1
+    pq = _body_after(node, r"graph_task\s*\*\s*perform_queued_requests\s*\(\s*\)\s*\{")
+    if pq is None:
+        unknown("perform_queued_requests not found")
+    res["pqrCopyBeforePop"] = _before(pq, r"create_body_task\(\s*my_queue->front\(\)\s*,\s*my_queue->front_metainfo\(\)\s*\)", r"my_queue->pop\(\s*\)")
+    ok = True
+    n = 0
+    for m in re.finditer(r"void try_put_and_add_task\s*\([^)]*\)\s*\{", fg):
+        b = _body_after(fg[m.start():], r"void try_put_and_add_task") or ""
+        n += 1
+        mm = re.search(r"graph_task\s*\*\s*(\w+)\s*=\s*(?:this->)?my_successors\.try_put_task\(\s*this->(back|front|prio)\(\)\s*,\s*this->(back|front|prio)_metainfo\(\)\s*\)\s*;\s*if\s*\(\s*(\w+)\s*\)\s*\{(.*)\}", b)
+        ok = ok and bool(mm and mm.group(1) == mm.group(4) and mm.group(2) == mm.group(3) and
+                         re.search(r"prio_pop\(\s*\)" if mm.group(2) == "prio" else r"this->destroy_%s\(\s*\)" % mm.group(2), mm.group(5)))
+    res["bufferPutBeforeDestroy"] = ok and n >= 2
+    if n < 2:
+        unknown("buffer_node / queue_node try_put_and_add_task not found")
+    fw = re.search(r"case do_fwrd_bypass\s*:\s*\{(.*?)forwarder_busy\s*=\s*false", jn)
+    fwt = fw.group(1) if fw else None
+    if fwt is None:
+        unknown("join_node_base do_fwrd_bypass not found")
+    mm = re.search(r"graph_task\s*\*\s*(\w+)\s*=\s*my_successors\.try_put_task\(\s*\w+\s*,\s*\w+\s*\)\s*;.*?if\s*\(\s*(\w+)\s*\)\s*\{\s*tuple_accepted\(\s*\)\s*;\s*\}\s*else\s*\{\s*tuple_rejected\(\s*\)", fwt or "")
+    res["joinPutBeforeAccepted"] = bool(mm and mm.group(1) == mm.group(2)) and _before(fwt, r"try_to_make_tuple\(", r"my_successors\.try_put_task\(")
+    lim = _class_text(fg, r"class limiter_node\s*:[^{;]*\{")
+    ft = _body_after(lim or "", r"graph_task\s*\*\s*forward_task\s*\(\s*\)\s*\{")
+    res["limiterPutBeforeConsume"] = _before(ft, r"my_successors\.try_put_task\(", r"my_predecessors\.try_consume\(") and \
+        _before(ft, r"my_predecessors\.try_reserve\(\s*\w+\s*,\s*\w+\s*\)", r"my_successors\.try_put_task\(\s*\w+\s*,\s*\w+\s*\)")
+    sm = re.search(r"void set_my_item\s*\(\s*size_t \w+\s*,\s*const item_type\s*&\s*\w+\s*,\s*const message_metainfo\s*&\s*(\w+)\s*\)\s*\{", ib)
+    b = _body_after(ib[sm.start():], r"void set_my_item") if sm else None
+    if b is None:
+        unknown("item_buffer::set_my_item(const&, const message_metainfo&) not found")
+    res["slotReservesOnCopy"] = bool(b and re.search(r"message_metainfo\(\s*%s\s*\)\s*;\s*for\s*\(\s*auto\s*&?\s*(\w+)\s*:\s*%s\.waiters\(\)\s*\)\s*\{\s*\1->reserve\(\s*1\s*\)\s*;" % (sm.group(1), sm.group(1)), b))
+    b = _body_after(ib, r"void destroy_item\s*\([^)]*\)\s*\{")
+    res["slotReleasesOnDestroy"] = bool(b and re.search(r"for\s*\(\s*auto\s*&?\s*(\w+)\s*:\s*\w+\.metainfo\.waiters\(\)\s*\)\s*\{\s*\1->release\(\s*1\s*\)\s*;", b))
+    tt = _class_text(impl, r"class trackable_messages_graph_task\s*:[^{;]*\{") or ""
+    ctor = _body_after(tt, r"trackable_messages_graph_task\s*\([^)]*const std::forward_list<d1::wait_context_vertex\*>\s*&\s*\w+\s*\)\s*:[^{]*\{")
+    res["taskReservesOnCopy"] = bool(ctor and re.search(r"for\s*\(\s*auto\s*&?\s*\w+\s*:\s*my_msg_wait_context_vertices\s*\)\s*\{.*?(\w+)->reserve\(\s*1\s*\)\s*;", ctor))
+    fin = _body_after(tt, r"void finalize\s*\([^)]*\)\s*\{")
+    res["taskReleasesOnFinalize"] = bool(fin and len(re.findall(r"for\s*\(\s*auto\s*&?\s*(\w+)\s*:\s*\w+\s*\)\s*\{\s*\1->release\(\s*1\s*\)\s*;", fin)) == 2 and
+                                        _before(fin, r"graph_task::finalize<", r"->release\("))
+    tp = _body_after(fg, r"bool try_put_and_wait\s*\(\s*const T\s*&\s*\w+\s*\)\s*\{")
+    mm = re.search(r"d1::wait_context_vertex (\w+)\s*\{\s*\}\s*;\s*bool (\w+)\s*=\s*internal_try_put\(\s*\w+\s*,\s*message_metainfo\s*\{\s*message_metainfo::waiters_type\s*\{\s*&\s*(\w+)\s*\}\s*\}\s*\)\s*;\s*"
+                   r"if\s*\(\s*(\w+)\s*\)\s*\{.*?d1::wait\(\s*(\w+)\.get_context\(\)", tp or "")
+    res["tpwWaitsOnOwnVertex"] = bool(mm and mm.group(1) == mm.group(3) == mm.group(5) and mm.group(2) == mm.group(4))
+    if tp is None:
+        unknown("receiver::try_put_and_wait not found")
+    return res
+
+
+def gen_meta(ck):
+    try:
+        r = extract_meta()
+    except OSError as e:
+        r = {"known": False, "why": [str(e)]}
+    ck.extra["generated_meta"] = r
+    ck.oblige("gen:try_put_and_wait skeleton (trackable task ctor/finalize, item_buffer set/destroy, task / queue / buffer / join / limiter forwarding order, try_put_and_wait) recognised",
+              "generated", r.get("known", False), "; ".join(r.get("why", [])) or str({k: r.get(k) for k in META_FLAGS}))
+    body = "def skeletonKnown : Bool := %s\n" % ("true" if r.get("known") else "false")
+    for k in META_FLAGS:
+        body += "def %s : Bool := %s\n" % (k, "true" if r.get(k) else "false")
+    gen_write("C14Meta", body)
+
+
+
+def build_meta():
+    return cxx_build("C14", "meta", ["harness/c14/meta.cpp", STUBS], flags=["-O1", "-g", "-fno-access-control", "-DTBB_PREVIEW_FLOW_GRAPH_TRY_PUT_AND_WAIT=1"])
+
+
+def meta_parse(o):
+    f = o.split(" | ")
+    if len(f) != 5:
+        return None
+    st = {"res": f[0], "ev": [] if f[1] == "-" else f[1].split(), "pool": [] if f[2] == "-" else [x.split(":", 1) for x in f[2].split()], "w": {}, "h": []}
+    if f[3] != "-":
+        for x in f[3].split():
+            k, _, v = x.partition("=")
+            c, _, m = v.partition("/")
+            st["w"][int(k[1:])] = (int(c), int(m))
+    if f[4] != "-":
+        for x in f[4].split():
+            k, m, l = x.split(":")
+            st["h"].append((k, [int(t) for t in m.split("+")], [] if l == "-" else [int(t) for t in l.split(",")]))
+    return st
+
+
+META_CORPUS = [
+    # tracked put through a serial queueing node, a queue_node, a rejecting serial node (pull), a sink; an unrelated message in between
+    ["node 0 func 1 q", "node 1 queue", "node 2 func 1 r", "node 3 sink 0", "edge 0 1", "edge 1 2", "edge 2 3", "go",
+     "tpw 0 7", "put 0 8", "tpw 0 9", "run k1", "run k0", "run k2", "run k3", "run k4", "run k5", "run k6", "run k7", "run k8", "run k9", "run k10", "run k11"],
+    # join of a tracked and an untracked message, then a limiter fed by a queue
+    ["node 0 func 0 q", "node 1 func 0 q", "node 2 join", "node 3 queue", "node 4 limiter 1", "node 5 func 1 q", "node 6 sink 0",
+     "edge 0 2 0", "edge 1 2 1", "edge 2 3", "edge 3 4", "edge 4 5", "edge 5 6", "go",
+     "tpw 0 5", "put 1 6", "tpw 0 15", "tpw 1 16", "run k1", "run k2", "run k3", "run k4", "run k0", "run k5", "run k6", "run k7", "run k8", "run k9", "dec 4",
+     "run k10", "run k11", "run k12", "run k13", "run k14"],
+]
+
+
+def gen_meta_script(rng, exe, nops):
+    it = Inter(exe)
+    try:
+        nodes = []
+        lines = []
+        use_join = rng.random() < 0.4
+        entries = [0]
+        nodes.append("func %d q" % rng.choice([0, 1, 1, 2]))
+        if use_join:
+            nodes.append("func %d q" % rng.choice([0, 1]))
+            entries.append(1)
+            nodes.append("join")
+        for _ in range(rng.choice([1, 2, 3])):
+            k = rng.choice(["funcq", "queue", "queue+funcr", "queue+limiter", "funcq"])
+            if k == "funcq":
+                nodes.append("func %d q" % rng.choice([0, 1, 2]))
+            elif k == "queue":
+                nodes.append("queue")
+            elif k == "queue+funcr":
+                nodes += ["queue", "func %d r" % rng.choice([1, 1, 2])]
+            else:
+                nodes += ["queue", "limiter %d" % rng.choice([1, 2])]
+        nodes.append("sink %d" % rng.choice([0, 0, 0, 3]))
+        for i, nd in enumerate(nodes):
+            it.send("node %d %s" % (i, nd))
+        start = 0
+        if use_join:
+            it.send("edge 0 2 0")
+            it.send("edge 1 2 1")
+            start = 2
+        for i in range(start, len(nodes) - 1):
+            it.send("edge %d %d" % (i, i + 1))
+        st = meta_parse(it.send("go"))
+        lims = [i for i, nd in enumerate(nodes) if nd.startswith("limiter")]
+        nid = [10]
+        for _ in range(nops):
+            r = rng.random()
+            if st["pool"] and r < 0.5:
+                l = "run " + rng.choice(st["pool"])[0]
+            elif r < 0.68:
+                nid[0] += 1
+                l = "tpw %d %d" % (rng.choice(entries), nid[0])
+            elif r < 0.84:
+                nid[0] += 1
+                l = "put %d %d" % (rng.choice(entries), nid[0])
+            elif r < 0.93 and lims:
+                l = "dec %d" % rng.choice(lims)
+            elif r < 0.97:
+                l = "mode %d %d" % (len(nodes) - 1, rng.choice([0, 0, 2, 3]))
+            else:
+                l = rng.choice(["run k999", "frob", "tpw 99 1", "dec 0"])
+            st = meta_parse(it.send(l)) or st
+        st = meta_parse(it.send("mode %d 0" % (len(nodes) - 1))) or st
+        for _ in range(400):      # drain: run everything, decrement the limiters while something is stuck behind them
+            if st["pool"]:
+                st = meta_parse(it.send("run " + st["pool"][0][0])) or st
+            elif st["h"] and lims:
+                before = st
+                for lm in lims:
+                    st = meta_parse(it.send("dec %d" % lm)) or st
+                if not st["pool"]:
+                    break
+            else:
+                break
+    finally:
+        rc = it.close()
+    return it.lines, it.outs, rc
+
+
+def meta_monitors(lines, outs):
+    from collections import Counter
+    bad = []
+    tpw = set()
+    derived = {}      # message -> Counter of tracked puts it derives from
+    prev = None
+    for li, (l, o) in enumerate(zip(lines, outs)):
+        w = l.split()
+        st = meta_parse(o) if o != "bad-op" else None
+        if st is None:
+            continue
+        created = None
+        if w[0] == "tpw" and st["res"] == "1":
+            tpw.add(int(w[2]))
+            derived[int(w[2])] = Counter([int(w[2])])
+            created = int(w[2])
+        for e in st["ev"]:
+            m = re.fullmatch(r"J\d+:(\d+)\+(\d+)", e)
+            if m:
+                a, b = int(m.group(1)), int(m.group(2))
+                derived[a] = derived.get(a, Counter()) + derived.get(b, Counter())
+        # every holder carries exactly the vertices of the puts its message derives from
+        for (k, msgs, ws) in st["h"]:
+            exp = Counter()
+            for m in msgs:
+                exp += derived.get(m, Counter())
+            if Counter(ws) != exp:
+                miss = exp - Counter(ws)
+                extra = Counter(ws) - exp
+                if miss:
+                    bad.append(("descendant-untracked", "line %d `%s`: the %s holding message %s derives from tracked put(s) %s but does not carry their vertex: try_put_and_wait would not wait for it"
+                                % (li, l, "task" if k == "T" else "slot", msgs, sorted(miss))))
+                if extra:
+                    bad.append(("unrelated-tracked", "line %d `%s`: the %s holding message %s carries the vertex of put(s) %s it does not derive from: try_put_and_wait would wait for an unrelated message"
+                                % (li, l, "task" if k == "T" else "slot", msgs, sorted(extra))))
+        for wid, (c, mn) in st["w"].items():
+            own = sum(ws.count(wid) for (_k, _m, ws) in st["h"])
+            if c != own:
+                bad.append(("count-mismatch", "line %d `%s`: vertex of put %d has reference count %d but the live holders own %d reference(s)%s" % (
+                    li, l, wid, c, own, ": try_put_and_wait would return early" if c < own else ": try_put_and_wait would never return")))
+            if prev is not None and wid != created and wid in prev["w"]:
+                before = sum(ws.count(wid) for (_k, _m, ws) in prev["h"])
+                if before > 0 and own > 0 and mn <= 0:
+                    bad.append(("transient-zero", "line %d `%s`: the reference count of put %d dropped to %d in the middle of the operation although a descendant exists before and after it: "
+                                "a concurrent try_put_and_wait would return early" % (li, l, wid, mn)))
+        prev = st
+    return bad
+
+
+def run_meta(ck, exe):
+    quick = ck.tier == "quick"
+    scripts = []
+    for c in META_CORPUS:
+        outs, rc = run_script(exe, [], c)
+        scripts.append((c, outs, rc))
+    for _ in range(250 if quick else 4000):
+        try:
+            scripts.append(gen_meta_script(ck.rng, exe, ck.rng.choice([10, 20, 35])))
+        except RuntimeError as e:
+            scripts.append(([], [], str(e)))
+    mon_bad, snap_bad = [], None
+    snaps, ntpw = [], 0
+    for lines, outs, rc in scripts:
+        if rc not in (0, None):
+            mon_bad.append((("harness-crash", "harness rc=%s" % rc), lines))
+            continue
+        ck.count(len(lines), ("meta", tuple(sorted(set(l.split()[2] for l in lines if l.startswith("node ")))), tuple(sorted(set(l.split()[0] for l in lines)))))
+        ck.traces_validated += 1
+        ntpw += sum(1 for l, o in zip(lines, outs) if l.startswith("tpw") and o.startswith("1 |"))
+        for b in meta_monitors(lines, outs):
+            mon_bad.append((b, lines))
+        for l, o in zip(lines, outs):
+            st = meta_parse(o) if o != "bad-op" else None
+            if st and st["w"]:
+                snaps.append(("snap " + " ".join("%d=%d" % (k, v[0]) for k, v in sorted(st["w"].items())) + " | " +
+                              " ".join("%s:%d:%s" % (k, m[0], ",".join(map(str, ws)) or "-") for (k, m, ws) in st["h"]), lines, l))
+    try:
+        mo = drv("c14meta", "\n".join(x[0] for x in snaps) + "\n") if snaps else []
+        for (sn, lines, l), r in zip(snaps, mo):
+            if r != "ok":
+                snap_bad = ("`%s` -> %s | %s" % (l, r, sn), lines)
+                break
+    except BuildError as e:
+        snap_bad = ("model driver unavailable: %s" % str(e)[-200:], [])
+    ck.extra["meta"] = {"scripts": len(scripts), "tracked_puts": ntpw, "snapshots_checked": len(snaps)}
+    ck.sample({"engine": "E-MOCK", "mode": "meta", "script": scripts[0][0][:30], "impl_output_tail": scripts[0][1][-2:]})
+    ck.oblige("corr:E-MOCK try_put_and_wait: white-box snapshots of the real nodes (vertex counts, pending trackable tasks, occupied slots with their metainfo) "
+              "satisfy the model's invariant count = references owned by holders, evaluated by Lean `c14meta`", "correspondence", snap_bad is None and bool(snaps),
+              "" if snap_bad is None else snap_bad[0])
+    ck.oblige("monitor:E-MOCK try_put_and_wait: every holder of a descendant carries the put's vertex and nothing else does, the count never touches 0 while a descendant "
+              "exists, nothing is left referenced when the graph is drained", "correspondence", not mon_bad, "" if not mon_bad else "%s | script %s" % (mon_bad[0][0], mon_bad[0][1]))
+    reported = set()
+    for (key, text), lines in mon_bad:
+        if key in reported or not lines or len(reported) >= 2:
+            continue
+        reported.add(key)
+
+        def still(ls, key=key):
+            o, rc = run_script(exe, [], ls)
+            return any(k == key for (k, _t) in meta_monitors(ls, o))
+        small = shrink_script(exe, lines, still)
+        o, rc = run_script(exe, [], small)
+        texts = [t for (k, t) in meta_monitors(small, o) if k == key]
+        ck.counterexample("meta:" + key, texts[0] if texts else text, {"engine": "E-MOCK", "mode": "meta", "script": small, "monitor": key, "impl_output": o[-4:]})
+
+
 # ---------------------------------------------------------------------------------------------------
 # E-REAL
 # ---------------------------------------------------------------------------------------------------
-REAL_TOPOS = ["chain", "fanout", "fanin", "diamond", "limiter", "input", "rejecting", "lightweight", "cancel", "throw", "reserve"]
+REAL_TOPOS = ["chain", "fanout", "fanin", "diamond", "limiter", "input", "rejecting", "lightweight", "cancel", "throw", "reserve", "async"]
+FAULT_TOPOS = ["chain", "fanout", "fanin", "diamond", "limiter", "rejecting", "async"]
 
 
 def real_cases(ck):
@@ -886,6 +1928,16 @@ def real_cases(ck):
         cases.append({"topo": topo, "seed": ck.rng.randrange(1 << 30), "putters": ck.rng.choice([2, 3, 4]), "arena": ck.rng.choice([2, 3, 4, 8]),
                       "msgs": ck.rng.choice([50, 200, 600]) if quick else ck.rng.choice([100, 500, 2000]),
                       "depth": ck.rng.choice([1, 2, 3, 5]), "width": ck.rng.choice([2, 3, 4])})
+    # fault schedules on multi-node graphs: body k of node j throws / the graph is cancelled after k starts
+    for i in range(36 if quick else 900):
+        topo = FAULT_TOPOS[i % len(FAULT_TOPOS)]
+        fault = ("throw:%d:%d" % (ck.rng.randrange(4), ck.rng.randrange(600))) if ck.rng.random() < 0.65 and topo != "async" else "cancel:%d" % ck.rng.choice([1, 5, 20, 60])
+        cases.append({"topo": topo, "seed": ck.rng.randrange(1 << 30), "putters": ck.rng.choice([2, 3, 4]), "arena": ck.rng.choice([2, 4, 8]),
+                      "msgs": ck.rng.choice([50, 200, 600]), "depth": ck.rng.choice([1, 2, 3]), "width": ck.rng.choice([2, 3]), "fault": fault})
+    # try_put_and_wait (preview build of the same harness)
+    for i in range(24 if quick else 500):
+        cases.append({"topo": "tpw", "seed": ck.rng.randrange(1 << 30), "putters": ck.rng.choice([1, 2, 3]), "arena": ck.rng.choice([4, 8]),
+                      "msgs": ck.rng.choice([10, 60, 200]), "depth": 1, "width": 2, "preview": True})
     # the rejection / edge-flip race needs many hand-overs per run: long runs of the pull-protocol topologies
     for i in range(40 if quick else 800):
         cases.append({"topo": ["input", "rejecting", "limiter"][i % 3], "seed": ck.rng.randrange(1 << 30), "putters": ck.rng.choice([2, 4]),
@@ -894,7 +1946,11 @@ def real_cases(ck):
 
 
 def run_real_case(exe, c, timeout=120):
+    if isinstance(exe, dict):
+        exe = exe["preview" if c.get("preview") else "plain"]
     args = [exe, c["topo"], str(c["seed"]), str(c["putters"]), str(c["arena"]), str(c["msgs"]), str(c["depth"]), str(c["width"])]
+    if c.get("fault"):
+        args.append(c["fault"])
     rc, out, err = sh(args, timeout=timeout)
     res = None
     for l in out.split("\n"):
@@ -917,7 +1973,7 @@ def run_real(ck, exe):
             if len(bad) >= 4:
                 break
             continue
-        ck.count(res.get("bodies", 0), ("real", c["topo"], c["putters"], c["arena"], min(3, res.get("max_live", 0))))
+        ck.count(res.get("bodies", 0), ("real", c["topo"], c["putters"], c["arena"], min(3, res.get("max_live", 0)), (c.get("fault") or "").split(":")[0]))
         if res.get("violations"):
             bad.append((c, res))
         if len(bad) >= 4 or (bad and any(x.startswith("hang") for x in bad[-1][1]["violations"]) and len(bad) >= 2):
@@ -931,7 +1987,7 @@ def run_real(ck, exe):
     seen = set()
     for c, res in bad:
         v = res["violations"][0]
-        key = "real:" + c["topo"] + ":" + v.split(":")[0].replace(" ", "-")
+        key = "real:" + c["topo"] + ":" + v.split(":")[0].replace(" ", "-") + (":fault" if c.get("fault") else "")
         if key in seen or len(seen) >= 2:
             continue
         seen.add(key)
@@ -963,7 +2019,15 @@ def run(ck):
                "cancel, throw, reset, reserve/release, wait_for_all, sink pulls/reservations, hooks, malformed lines; the same on graphs of "
                "never-rejecting function nodes against the Net machine; distinct = distinct (set of node configurations, set of op kinds). "
                "Caches: exhaustive response vectors. E-REAL: 11 topology families x random sizes, 2-4 putter threads, arena 2-8, plus long runs of "
-               "the pull-protocol topologies.")
+               "the pull-protocol topologies, fault schedules (body k of node j throws / cancel after k starts) on 7 multi-node topologies, async_node with "
+               "foreign threads that put and release late, try_put_and_wait (preview build) with a blocked unrelated message. "
+               "Reservation protocol: E-GEN of the statement skeleton of reservable_predecessor_cache / limiter_node::forward_task / input_node::apply_body_bypass; "
+               "E-MOCK real limiter_node / input_node with scripted senders and successor, hooks that suspend an operation inside a sender's try_reserve / the "
+               "successor's try_put_task so that further forward attempts (decrementer, pending forward tasks, register_predecessor, the push path) / put tasks run "
+               "nested inside the window; corpus + seeded random scripts; distinct = (mode, op kinds, has nested window, number of senders). "
+               "Wait tree: E-SHIM real wait_context_vertex + reference_vertex, 2-4 threads, random programs, seeded random schedules, every atomic access replayed by the "
+               "model. try_put_and_wait: E-MOCK (preview macro) chains of function / queue / join / limiter nodes, tracked and plain puts, scripted task order, "
+               "white-box snapshots of every holder of a vertex reference.")
     ck.assumptions += [
         "modelled and proved: function_input_base handlers (all op sequences), broadcast/round-robin try_put_task, continue_receiver counters, input_node "
         "flag protocol, input_node->rejecting-node push/pull switching (all task-level interleavings with foreign try_puts), graphs of queueing/unlimited "
@@ -972,27 +2036,77 @@ def run(ck):
         "the window between a rejected try_put_task and register_predecessor is covered at node level (any op order) and sampled through proxies",
         "graph_conservation is proved for graphs of function nodes; buffering nodes (queue, join, limiter, ...) are C15's models and appear here only in "
         "E-REAL monitors",
-        "not modelled: async_node gateway lifetime, try_put_and_wait metainfo reference counting, priorities (prioritize_task), thread-local reference "
-        "vertices (the mock maps them to the graph's vertex), graph::reset with rf_clear_edges/rf_reset_bodies, nodes created while the graph is inactive",
+        "modelled and proved (this extension): the reservation protocol of reservable_predecessor_cache with any number of concurrent "
+        "limiter_node::forward_task invocations at the granularity of the mutex-protected sections (single owner, failed attempts touch nothing, consumed iff "
+        "delivered, at most once), input_node put tasks + an external reserving successor; the wait tree (graph vertex + per-thread reference vertices, one step "
+        "per atomic access) with reserve_wait/release_wait and foreign-created tasks (gateway); try_put_and_wait metainfo reference counting at holder "
+        "granularity along the task / queue->task / buffer / join / limiter paths; after cancellation only in-flight bodies finish",
+        "the reservation theorems are about the model instantiated with the flags regenerated from the source text; the senders obey the reservation "
+        "contract of a reservable sender (C15's buffer_reservation_safe for the real buffers); the window inside my_successors.try_put_task is closed to other "
+        "limiter operations by the successor cache's lock (check_conditions takes it), so it is atomic in the model and cannot be opened by the mock",
+        "try_put_and_wait: holder creation (a loop of reserve(1)) and destruction (a loop of release(1)) are single steps; multifunction_node output ports, "
+        "async gateways and limiter decrementers do not carry metainfo (modelled as untracked hops, excluded from the theorem); continue_node / overwrite_node / "
+        "write_once_node metainfo is not modelled; receiver::try_put_and_wait itself runs only in E-REAL (the mock drives try_put_task with a harness-owned vertex)",
+        "wait_for_all is assumed to return exactly when wait_context::continue_execution() reads 0 (C01/C02 own the dispatcher's wait loop); "
+        "the mock maps thread reference vertices to the graph's vertex, the real reference_vertex protocol is tied by E-SHIM (harness/c14/wt.cpp) and by C01",
+        "not modelled: priorities (prioritize_task), graph::reset with rf_clear_edges/rf_reset_bodies, nodes created while the graph is inactive, reserving join_node "
+        "ports as users of the cache (their handler serialises try_reserve/release/consume on the aggregator; C15 owns the join contract)",
         "E-MOCK replaces r1 (task pool, context, arena) by a scripted single-threaded pool: true parallel overlap of bodies is covered by the theorems "
         "(all op sequences) and sampled by E-REAL",
         "no_body_after_cancel is about tasks taken by the dispatcher after cancellation; a lightweight body invoked inline by an already running task or by "
         "an external try_put is not prevented by the code and is not flagged; an exception thrown in an already cancelled context is dropped by the "
         "dispatcher (wait_for_all then reports cancellation only) and is modelled so"]
-    ck.trusted += ["checks/c14.py extract_handlers (E-GEN regexes)", "harness/c14/mock.cpp (mock r1 + white-box dump)", "harness/c14/real.cpp monitors",
+    ck.trusted += ["checks/c14.py extract_reservation / extract_wait / extract_meta (E-GEN regexes over the statement skeletons)",
+                   "harness/c14/res.cpp (stub senders / successor, nested windows)", "harness/c14/wt.cpp (trace extraction)", "harness/c14/meta.cpp (white-box holder snapshot)",
+                   "checks/c14.py extract_handlers (E-GEN regexes)", "harness/c14/mock.cpp (mock r1 + white-box dump)", "harness/c14/real.cpp monitors",
                    "checks/c14.py monitors, script generator and Net translation"]
     gen(ck)
+    gen_res(ck)
+    gen_wait(ck)
+    gen_meta(ck)
     ck.lean_stage()
+    run_res(ck, build_res())
+    run_limshim(ck, build_limshim())
+    run_wt(ck, build_wt())
+    run_meta(ck, build_meta())
     mock = build_mock()
     run_cache(ck, mock)
     run_mock(ck, mock)
     run_net(ck, mock)
-    real = build_real()
-    run_real(ck, real)
+    run_real(ck, {"plain": build_real(), "preview": build_real(preview=True)})
 
 
 def replay(ck, obj):
     r = obj["replay"]
+    if r.get("engine") == "E-MOCK" and r.get("mode") == "meta":
+        exe = build_meta()
+        outs, rc = run_script(exe, [], r["script"])
+        bad = meta_monitors(r["script"], outs)
+        for l, o in zip(r["script"], outs):
+            print("%-16s %s" % (l, o))
+        for k, t in bad:
+            print("MONITOR %s: %s" % (k, t))
+        return 1 if any(k == r.get("monitor") for k, _ in bad) or rc != 0 else 0
+    if r.get("engine") == "E-SHIM" and r.get("harness") == "limshim":
+        exe = build_limshim()
+        rc, out, err = sh([exe, "replay", str(r["seed"]), "1"] + [str(x) for x in r["params"]] + [str(x) for x in r["schedule"]], timeout=120)
+        print(out[:2000])
+        return 1 if "VIOLATION" in out or rc not in (0,) else 0
+    if r.get("engine") == "E-SHIM" and r.get("harness") == "wt":
+        exe = build_wt()
+        rc, out, err = sh([exe, str(r["seed"]), "1", str(r["threads"]), str(r["ops"])], timeout=120)
+        print(out)
+        return 1 if "VIOLATION" in out or rc != 0 else 0
+    if r.get("engine") == "E-MOCK" and r.get("mode") in ("res", "inp"):
+        exe = build_res()
+        args = ["inp"] if r["mode"] == "inp" else []
+        outs, rc = run_script(exe, args, r["script"])
+        bad = (res_monitors if r["mode"] == "res" else inp_monitors)(r["script"], outs)
+        for l, o in zip(r["script"], outs):
+            print("%-16s %s" % (l, o))
+        for k, t in bad:
+            print("MONITOR %s: %s" % (k, t))
+        return 1 if any(k == r.get("monitor") for k, _ in bad) or rc != 0 else 0
     if r.get("engine") == "E-MOCK" and "script" in r:
         exe = build_mock()
         outs, rc, err = run_lines_on_impl(exe, r["script"])
@@ -1009,7 +2123,7 @@ def replay(ck, obj):
         mo = drv("c14cache", r["cache_line"] + "\n")
         return 0 if out.strip() == mo[0] else 1
     if r.get("engine") == "E-REAL":
-        exe = build_real()
+        exe = build_real(preview=bool(r["case"].get("preview")))
         fails = 0
         for i in range(int(r.get("repeat", 20))):
             rc, res, tail = run_real_case(exe, r["case"])
